@@ -43,7 +43,7 @@ func TestC07_Fallback(t *testing.T) {
 	rapid.Check(t, func(t *rapid.T) {
 		cmds, cls := gen.DB(t, gen.CmdOpts{Platforms: true, Unicode: rapid.IntRange(0, 3).Draw(t, "u") == 0, Long: true}, []int{0, 1, 3, 10, 1})
 		needle := ""
-		if rapid.IntRange(0, 7).Draw(t, "needle-db") == 0 {
+		if rapid.IntRange(0, 15).Draw(t, "needle-db") == 0 {
 			// a large database with ONE entry that can answer, at a drawn position (ends and block
 			// boundaries included): whatever batches, chunks or caps the matcher works in, it must reach it
 			n := rapid.OneOf(rapid.SampledFrom([]int{255, 256, 257, 258, 259, 511, 513, 1001, 1003, 1023, 1025, 1026, 1027}), rapid.IntRange(200, 1100)).Draw(t, "needle-n")
@@ -76,13 +76,42 @@ func TestC07_Fallback(t *testing.T) {
 				break
 			}
 		}
+		if needle == "" && !longTail && rapid.IntRange(0, 7).Draw(t, "edge-blank") == 0 {
+			// a misspelt word with a blank in front or behind: the blank is part of what is matched
+			toks := gen.Tokens(cmds)
+			if len(toks) > 0 {
+				w := gen.Typo(t, rapid.SampledFrom(toks).Draw(t, "blank-word"))
+				q, qc = rapid.SampledFrom([]string{" " + w, w + " ", " " + w + " ", w + "  ", " "}).Draw(t, "blank-shape"), "edge-blank"
+			}
+		}
+		filtered := ""
+		if needle == "" && !longTail && len(cmds) > 0 && rapid.IntRange(0, 9).Draw(t, "filtered-lexical") == 0 {
+			// the query word occurs as a word only in entries the filter rejects, and - letter by letter -
+			// in an entry the filter accepts: the lexical stage finds nothing it may return, the fallback must
+			word := rapid.SampledFrom([]string{"zorvex", "plinth", "quaggy"}).Draw(t, "filtered-word")
+			filtered = rapid.SampledFrom([]string{"pipeline", "platform"}).Draw(t, "filtered-by")
+			rejected := database.Command{Command: word + " run", Description: "plain " + word}
+			accepted := database.Command{Command: strings.Join(strings.Split(word, ""), "-") + " all | cat", Description: "spelled out", Pipeline: true}
+			if filtered == "platform" {
+				rejected.Platform = []string{"plan9"}
+			}
+			cmds = append(append(cloneCmds(cmds), rejected), accepted)
+			db = gen.Load(t, cmds)
+			q, qc = word, "filtered-lexical"
+		}
 		tr := true
 		opt := gen.Options(t, gen.OptSpec{N: len(cmds), BigLimit: true, FixFuzzy: &tr, Thresholds: []int{0, 0, -30, -100, 5, 40, 200, math.MaxInt, math.MaxInt - 1, math.MaxInt - 99, math.MaxInt - 100, math.MinInt, math.MinInt + 100, 1 << 40}})
 		if rapid.Bool().Draw(t, "open-filters") {
 			opt.AllPlatforms, opt.PipelineOnly, opt.Platforms, opt.NoCrossPlatform = true, false, nil, false
 		}
 		var labels0 []string
-		smallLimit := rapid.IntRange(0, 2).Draw(t, "small-limit") == 0
+		switch filtered {
+		case "pipeline":
+			opt.PipelineOnly, opt.FuzzyThreshold = true, 0
+		case "platform":
+			opt.PipelineOnly, opt.AllPlatforms, opt.Platforms, opt.NoCrossPlatform, opt.FuzzyThreshold = false, false, []string{"linux"}, true, 0
+		}
+		smallLimit := rapid.IntRange(0, 1).Draw(t, "small-limit") == 0
 		if smallLimit {
 			// the never-left-empty claim holds for every limit: try the ones that truncate
 			opt.Limit = rapid.SampledFrom([]int{1, 1, 2, 3}).Draw(t, "limit")
